@@ -387,15 +387,38 @@ def ob_recorded(run, oid):
     field_of = {"Notar": "notar", "NotarFallback": "notar_fallback", "Skip": "skip", "SkipFallback": "skip_fallback", "Final": "finalize"}
     im = {c.dst["l"]: c for c in b.calls() if c.callee == "core::ops::index::IndexMut::index_mut" and K.peel(b.operand_term(c.args[0]))[0] == "field" and K.peel(b.operand_term(c.args[0]))[3] == SV}
     stores = {}
+    # `let e = &mut self.votes.skip[v]; *e = Some(vote)`: locals that hold (a re-borrow of) the slot an index_mut call returned
+    alias = {l: l for l in im}
+    for _round in range(3):
+        for (bb, i, dst, rv, sp) in b.assignments():
+            if dst["p"] or dst["l"] in alias:
+                continue
+            src = None
+            if rv["k"] == "ref" and rv.get("mut") and rv["pl"]["l"] in alias:
+                src = rv["pl"]["l"]
+            elif rv["k"] == "use":
+                o_ = rv["a"].get("m") or rv["a"].get("c")
+                if o_ and not o_["p"] and o_["l"] in alias:
+                    src = o_["l"]
+            if src is not None:
+                alias[dst["l"]] = alias[src]
     for (bb, i, dst, rv, sp) in b.assignments():
-        if dst["p"] and dst["p"][0][0] == "d" and dst["l"] in im:
-            f = K.peel(b.operand_term(im[dst["l"]].args[0]))[2]
+        if dst["p"] and dst["p"][0][0] == "d" and dst["l"] in alias:
+            f = K.peel(b.operand_term(im[alias[dst["l"]]].args[0]))[2]
             stores.setdefault(f, []).append((bb, sp, b.rvalue_term(rv)))
+    for c in b.calls():
+        # `self.votes.skip[v].replace(vote)` / `.insert(vote)`: Option's own way of saying `= Some(vote)`
+        if c.name.rsplit("::", 1)[-1] in ("replace", "insert") and "option::Option" in c.name and len(c.args) == 2:
+            t = b.operand_term(c.args[0])
+            for l, ic in im.items():
+                if K.mentions(t, lambda x: x[0] == "call" and len(x) > 3 and x[3] == ic.bb) or (K.peel(t)[0] == "local" and alias.get(K.peel(t)[1]) == l):
+                    f = K.peel(b.operand_term(ic.args[0]))[2]
+                    stores.setdefault(f, []).append((c.bb, c.span, b.operand_term(c.args[1])))
     for c in b.calls():
         if c.name.endswith("BTreeMap::insert"):
             t = b.operand_term(c.args[0])
             for l, ic in im.items():
-                if K.mentions(t, lambda x: x[0] == "call" and len(x) > 3 and x[3] == ic.bb):
+                if K.mentions(t, lambda x: x[0] == "call" and len(x) > 3 and x[3] == ic.bb) or (K.peel(t)[0] == "local" and alias.get(K.peel(t)[1]) == l):
                     f = K.peel(b.operand_term(ic.args[0]))[2]
                     stores.setdefault(f, []).append((c.bb, c.span, b.operand_term(c.args[2])))
     all_bbs = []
